@@ -27,7 +27,7 @@ deriving Repr, Inhabited
 /-- what `Scope().Lookup(name)` finds -/
 inductive Obj
   | notIface (typeStr : Str)
-  | iface (methods : List MethodIn) (generic : Bool) (tparams : List TParamIn)
+  | iface (methods : List MethodIn) (generic : Bool) (tparams : List TParamIn) (isTypeName : Bool)
 deriving Repr, Inhabited
 
 structure Input where
@@ -120,7 +120,7 @@ def mocksAlloc (o : Ord) (fuel : Nat) (scope : List (Str × Obj)) :
     match scope.find? (·.1 = name) with
     | none => .error (.notFound name)
     | some (_, .notIface ts) => .error (.notIface name ts)
-    | some (_, .iface ms generic tps) =>
+    | some (_, .iface ms generic tps _) =>
       match methodsAlloc o fuel r ms with
       | .error f => .error (.fail f)
       | .ok (r1, mas) =>
@@ -239,8 +239,15 @@ def initRegistry (inp : Input) : Registry :=
 
 def mockPkgName (inp : Input) : Str := if inp.pkgFlag ≠ [] then inp.pkgFlag else inp.srcName
 
-/-- `moq.New` + `Mocker.Mock` up to the template data. -/
-def genData (o : Ord) (fuel : Nat) (inp : Input) : Except Err Data :=
+/-- everything `Mocker.Mock` computes before the template runs -/
+structure Alloc where
+  reg : Registry              -- final registry
+  mocks : List MockAlloc
+  srcPkgQualifier : Str
+deriving Repr, Inhabited
+
+/-- `moq.New` + `Mocker.Mock` up to (not including) rendering. -/
+def genAlloc (o : Ord) (fuel : Nat) (inp : Input) : Except Err Alloc :=
   if inp.args.isEmpty then .error .noArgs
   else do
     let (r1, mocks) ← mocksAlloc o fuel inp.scope (initRegistry inp) inp.args
@@ -255,9 +262,16 @@ def genData (o : Ord) (fuel : Nat) (inp : Input) : Except Err Data :=
         else some (r2, inp.srcName ++ s%".")
        else some (r2, []))
       | .error (.fail .diverge)
-    pure { pkgName := mockPkgName inp, srcPkgQualifier := q
-           imports := r3.sortedImports.map fun p => ⟨p.path, p.alias, p.qualifier⟩
-           mocks := mocks.map (renderMock r3)
-           stub := inp.stub, skip := inp.skip, resets := inp.resets }
+    pure { reg := r3, mocks := mocks, srcPkgQualifier := q }
+
+def Alloc.toData (inp : Input) (a : Alloc) : Data :=
+  { pkgName := mockPkgName inp, srcPkgQualifier := a.srcPkgQualifier
+    imports := a.reg.sortedImports.map fun p => ⟨p.path, p.alias, p.qualifier⟩
+    mocks := a.mocks.map (renderMock a.reg)
+    stub := inp.stub, skip := inp.skip, resets := inp.resets }
+
+/-- `moq.New` + `Mocker.Mock` up to the template data. -/
+def genData (o : Ord) (fuel : Nat) (inp : Input) : Except Err Data :=
+  (genAlloc o fuel inp).map (Alloc.toData inp)
 
 end Moq
